@@ -132,6 +132,7 @@ static bool is_const_expr(Node *node);
 static Node *assign(Token **rest, Token *tok);
 static Node *logor(Token **rest, Token *tok);
 static long double eval_double(Node *node);
+static long double eval_double2(Node *node);
 static Node *conditional(Token **rest, Token *tok);
 static Node *logand(Token **rest, Token *tok);
 static Node *bitor(Token **rest, Token *tok);
@@ -2033,15 +2034,38 @@ static long double eval_double(Node *node) {
     return eval(node);
   }
 
+  long double val = eval_double2(node);
+
+  // The value of an expression is a value of its type: round it to
+  // float or double as the run-time conversion would.
+  if (node->ty->kind == TY_FLOAT)
+    return (float)val;
+  if (node->ty->kind == TY_DOUBLE)
+    return (double)val;
+  return val;
+}
+
+// Arithmetic is carried out in the format of the expression's type
+// (FLT_EVAL_METHOD 0), as the generated code does.
+#define FOLD_FLONUM(op)                                           \
+  (node->ty->kind == TY_FLOAT ? (float)lhs op (float)rhs :        \
+   node->ty->kind == TY_DOUBLE ? (double)lhs op (double)rhs : lhs op rhs)
+
+static long double eval_double2(Node *node) {
   switch (node->kind) {
   case ND_ADD:
-    return eval_double(node->lhs) + eval_double(node->rhs);
   case ND_SUB:
-    return eval_double(node->lhs) - eval_double(node->rhs);
   case ND_MUL:
-    return eval_double(node->lhs) * eval_double(node->rhs);
-  case ND_DIV:
-    return eval_double(node->lhs) / eval_double(node->rhs);
+  case ND_DIV: {
+    long double lhs = eval_double(node->lhs);
+    long double rhs = eval_double(node->rhs);
+    switch (node->kind) {
+    case ND_ADD: return FOLD_FLONUM(+);
+    case ND_SUB: return FOLD_FLONUM(-);
+    case ND_MUL: return FOLD_FLONUM(*);
+    default: return FOLD_FLONUM(/);
+    }
+  }
   case ND_NEG:
     return -eval_double(node->lhs);
   case ND_COND:
@@ -2049,9 +2073,7 @@ static long double eval_double(Node *node) {
   case ND_COMMA:
     return eval_double(node->rhs);
   case ND_CAST:
-    if (is_flonum(node->lhs->ty))
-      return eval_double(node->lhs);
-    return eval(node->lhs);
+    return eval_double(node->lhs);
   case ND_NUM:
     return node->fval;
   }
